@@ -570,7 +570,7 @@ class ExcludeRegionState(object):  # pylint: disable=too-many-instance-attribute
         """
         if (deltaE < 0):
             # retraction, record the amount to potentially recover later
-            return self.recordRetraction(
+            returnCommands = self.recordRetraction(
                 RetractionState(
                     originalCommand=cmd,
                     firmwareRetract=False,
@@ -578,6 +578,16 @@ class ExcludeRegionState(object):  # pylint: disable=too-many-instance-attribute
                     feedRate=self.feedRate
                 )
             )
+
+            if (not returnCommands and not self.excluding):
+                # The retraction was dropped because the filament is still retracted (the matching
+                # recovery was excluded).  The printer did not execute the command, so its extruder
+                # coordinate must be set to the value the file now assumes.
+                returnCommands = [
+                    "G92 E{e}".format(e=self.position.E_AXIS.nativeToLogical())
+                ]
+
+            return returnCommands
         elif (deltaE > 0):
             # recovery
             return self.recoverRetractionIfNeeded(cmd, True)
